@@ -115,7 +115,7 @@ func cmdCheck(mode string, args []string) int {
 	}
 	// An obligation that comes back undecided may simply have lost the race against the clock on
 	// a busy machine. Before it is reported, a small number of undecided obligations get a second,
-	// unhurried attempt (four times the time limit, little parallelism). Many undecided obligations
+	// unhurried attempt (three times the time limit, little parallelism). Many undecided obligations
 	// at once are not a load effect and are reported as they are.
 	if mode == "check" {
 		var again []*Obligation
@@ -124,13 +124,13 @@ func cmdCheck(mode string, args []string) int {
 				again = append(again, o)
 			}
 		}
-		if len(again) > 0 && len(again) <= 8 {
-			SolveAll(again, qdir, *timeout*4, false, 2)
+		if len(again) > 0 && len(again) <= 16 {
+			SolveAll(again, qdir, *timeout*3, false, 4)
 			n := 0
 			for _, o := range again {
 				if o.Status == "proved" {
 					n++
-					o.Note += " [decided at the second attempt with 4x the time limit]"
+					o.Note += " [decided at the second attempt with 3x the time limit]"
 				}
 			}
 			r.Extra["undecided_retried"] = len(again)
